@@ -63,7 +63,7 @@ pub fn summary(g: &peppi::game::immutable::Game) -> String {
     let ports: Vec<String> = fr.ports.iter().map(|p| format!("P{}:{}{}", p.port as u8, data(&p.leader), p.follower.as_ref().map_or(String::new(), |f| format!("+F:{}", data(f))))).collect();
     let n = fr.id.len();
     let start = fr.start.as_ref().map(|s| (s.random_seed.len(), cols_sum(&(0..s.random_seed.len()).map(|i| Some(start_row(s, i))).collect::<Vec<_>>())));
-    let end = fr.end.as_ref().map(|e| { let len = e.latest_finalized_frame.as_ref().map_or(n, |c| c.len()); (len, cols_sum(&(0..len).map(|i| Some(end_row(e, i))).collect::<Vec<_>>())) });
+    let end = fr.end.as_ref().map(|e| { let len = e.latest_finalized_frame.as_ref().map(|c| c.len()).or(e.validity.as_ref().map(|b| b.len())).unwrap_or(n); /* below 3.7 the struct has no member: its rows are counted by the validity bitmap */ (len, cols_sum(&(0..len).map(|i| Some(end_row(e, i))).collect::<Vec<_>>())) });
     let item = fr.item.as_ref().map(|t| (t.r#type.len(), cols_sum(&(0..t.r#type.len()).map(|i| Some(item_row(t, i))).collect::<Vec<_>>())));
     let off = fr.item_offset.as_ref().map(|o| lean_list(&o.iter().map(|x| *x as u64).collect::<Vec<_>>()));
     let _ = v;
